@@ -232,6 +232,10 @@ func c15Check(c *Ctx, maxRuns int) {
 		seen["0|"+r.key()] = true
 	}
 	states, transitions := len(frontier), 0
+	defer func() { // (also when the budget ends the search early)
+		c.Res.Extra["states"] = float64(states)
+		c.Res.Extra["transitions"] = float64(transitions)
+	}()
 	item := 0
 	for depth := 1; depth <= maxRuns; depth++ {
 		var next []*c15Node
@@ -348,8 +352,6 @@ func c15Check(c *Ctx, maxRuns int) {
 			break
 		}
 	}
-	c.Res.Extra["states"] = float64(states)
-	c.Res.Extra["transitions"] = float64(transitions)
 	os.RemoveAll(dir)
 }
 
